@@ -1231,6 +1231,10 @@ def _havoc_heap(ex, st, spec):
             o.has = z3.Array(fresh_name("hvset"), z3sort(o.esort), z3.BoolSort())
         elif isinstance(o, Opaque):
             pass
+        elif isinstance(o, PList) and not attr:
+            # a local list the loop appends to: from here on an abstract list (its mutations go to the ghost trace);
+            # aliases held elsewhere keep the old (concrete) object - nothing may be concluded from them afterwards
+            st.fr.env[base] = Opaque("PyList")
         else:
             raise Unsupported(f"loop modifies {m}: cannot havoc {o!r} (use a symbolic dict/set)")
 
